@@ -63,6 +63,31 @@ def api_correspondence(chk, binp, n):
     return dis, {"histories": len(hists), "steps": steps, "pushes_beyond_16384": big}, (hists[0][:4] if hists else [])
 
 
+def enter_correspondence(chk, binp):
+    """enter() on the real buffer (hook) against the model's budget formulas, for lengths around every threshold."""
+    rc, out, err = C.run_rbv(binp, ["c05", "enter"], timeout=300)
+    rows = [tuple(int(x) for x in l.split()[1:4]) for l in out.splitlines() if l.startswith("enter ")]
+    if rc != 0 or len(rows) < 20:
+        return [{"what": "enter-hook-failed", "stderr": err[-300:]}]
+    ns = [r[0] for r in rows]
+    body = HDR + ("Eval vm_compute in (map (fun n => enter_max_len n MAX_LEN_DEFAULT) %s).\n"
+                  "Eval vm_compute in (map (fun n => enter_max_ops n MAX_OPS_DEFAULT) %s).\n" % (C.nlist(ns), C.nlist(ns)))
+    res = C.coq_eval_many([("c05_enter", body)])
+    o = res.get("c05_enter")
+    if isinstance(o, Exception) or o is None:
+        return [{"what": "cases-file-failed", "file": "c05_enter", "error": str(o)[-400:]}]
+    lists = C.parse_eval_lists(o)
+    if len(lists) != 2 or len(lists[0]) != len(rows) or len(lists[1]) != len(rows):
+        return [{"what": "no-answer", "file": "c05_enter"}]
+    dis = []
+    for (n, ml, mo), eml, emo in zip(rows, lists[0], lists[1]):
+        if (ml, mo) != (eml, emo):
+            dis.append({"what": "enter-budgets-differ", "len": n, "implementation(max_len,max_ops)": [ml, mo], "model": [eml, emo]})
+    chk.note("enter_budget_correspondence", {"lengths": len(rows), "disagreements": len(dis)})
+    chk.add_eval(len(rows), len(rows))
+    return dis[:5]
+
+
 def run(chk):
     thorough = chk.tier == "thorough"
     chk.cov["rule"] = ("API histories (push k characters incl. 0 and > 16384, shape, clear) with len/max_len/max_ops/successful/progress fields observed by hook after every "
@@ -83,6 +108,7 @@ def run(chk):
             raise RuntimeError("harness does not build even without hooks: " + blog2[-600:])
     else:
         dis, stats, sample = api_correspondence(chk, binp, 150 if thorough else 40)
+        dis += enter_correspondence(chk, binp)
         chk.note("api_history_correspondence", stats)
         chk.add_eval(stats["steps"], stats["steps"])
         chk.sample({"api_history": [s[1] for s in sample]})
